@@ -4,8 +4,8 @@
 cd "$(dirname "$0")" || exit 2
 export CARGO_NET_OFFLINE=true
 python3-vt - <<'PY'
-import sys
-sys.path.insert(0, '/verif')
+import sys, os
+sys.path.insert(0, os.getcwd())
 from mirsym import build, difftest
 mod, info = build.load_engine()
 print('engine:', info)
